@@ -249,6 +249,7 @@ def run_vh_parallel(arg_lists, timeout=3600, binary=None):
     # a property of the code under test (the first one may be a starved process on a loaded machine)
     for i, (args, o) in enumerate(zip(arg_lists, out)):
         if isinstance(o, dict) and "hang" in o and "--hang-secs" not in args:
+            log(f"[vh] worker reported no progress for 20 CPU-seconds, re-running it alone: {' '.join(args)[:100]} :: {json.dumps(o['hang'])[:300]}")
             try:
                 r = subprocess.run([binary or VH] + args + ["--hang-secs", "60"], stdout=subprocess.PIPE, stderr=subprocess.PIPE, text=True,
                                    timeout=timeout)
